@@ -86,13 +86,15 @@ func errWrapf(err error, msg string, v ...interface{}) error {
 }
 
 // splitAllPaths takes in a filepath and returns a list of all its parts
-// e.g. "/a/b/c" becomes ["a" "b" "c'"]
+// e.g. "a/b/c" becomes ["a" "b" "c"], and "/a/b/c" becomes ["/" "a" "b" "c"]
 func splitAllPaths(path string) []string {
-	dir, file := filepath.Dir(path), filepath.Base(path)
 	parts := []string{}
-	for dir != file {
-		parts = append([]string{file}, parts...)
-		dir, file = filepath.Dir(dir), filepath.Base(dir)
+	for path != "." && path != "/" {
+		parts = append([]string{filepath.Base(path)}, parts...)
+		path = filepath.Dir(path)
+	}
+	if path == "/" {
+		parts = append([]string{"/"}, parts...)
 	}
 	return parts
 }
